@@ -31,7 +31,7 @@ class C09(Prop):
                 "NV.C09.accept_serial_fresh", "NV.C09.applyAction_resolved", "NV.C09.pending_entry_older_than_any_accept",
                 "NV.C09.abandoned_suffix", "NV.C09.abandoned_nil_of_ok", "NV.C09.findConn_id",
                 "NV.C09.snoop_input_path_safe", "NV.C09.packet_dropped_when_user_gone", "NV.C09.removed_snooper_leaves_no_link",
-                "NV.C09.snoop_loop_refused",
+                "NV.C09.snoop_loop_refused", "NV.C09.cursor_moves_past_served_user",
                 "NV.C09.input_to_cleared_before_callback", "NV.C09.input_to_first_wins", "NV.C09.input_to_takes_the_line",
                 "NV.C09.no_prompt_while_input_to_pending", "NV.C09.prompt_revalidates", "NV.C09.sweep_keeps_invariant",
                 "NV.C09.failing_cleanup_loses_reset_state", "NV.C09.cleanup_restores_reset_state",
@@ -63,7 +63,8 @@ class C09(Prop):
     level_text = ("PARTIAL (model level). Lean 4 theorem `backend_total` about the model `Backend` (nullable all_users, "
                   "connection records as serials, recovery points, error_handler flag protocol with the master handler ok / "
                   "raising / catching an inner error and then raising, heart-beat bookkeeping, call_out sweep, reset + clean_up sweep with the "
-                  "walk restarted after an error, preload_objects, remove_interactive, input_to, write_prompt, re-validation after callbacks, batches of "
+                  "walk restarted after an error, preload_objects, remove_interactive, input_to, write_prompt, snoop links and the "
+                  "snooper's receive_snoop() on the input path, re-validation after callbacks, batches of "
                   "I/O events of one poll incl. stale entries and batches abandoned by a longjmp): for EVERY finite history of "
                   "external events (any number of accept / data / end-of-file / hang-up / console / timer events per poll, in "
                   "any order) x EVERY task oracle x both modes the run never reaches a modelled NULL dereference or use of "
@@ -76,28 +77,32 @@ class C09(Prop):
                   "the C source on every run) and by running the real backend() loop (loopback TCP clients, console pipe, "
                   "virtual time, events of one poll delivered in scripted order by the interposed poller, scripted failing "
                   "tasks, master error_handler in three behaviours) on the same histories: traces must be identical; the "
-                  "Lean specification oracle (12 clauses) judges every implementation trace.")
+                  "Lean specification oracle (14 clauses, incl. `isolation`: a line at the head of a user's input is served within "
+                  "users + 2 iterations whatever the other users' commands do) judges every implementation trace.")
     level_note = ("trusted: Lean kernel; extract.py and the regex translator in props/c09.py; the correspondence harness "
                   "(differential; only generated histories); the oracle clauses heartbeats / commands / callouts / leak / "
-                  "refs / unexpected-shutdown / disconnect / hb-schedule / turns are judged on every trace but not proved "
+                  "refs / unexpected-shutdown / disconnect / hb-schedule / turns / isolation are judged on every trace but not proved "
                   "for all histories; memory errors inside arbitrary failing tasks, real signal delivery, the OS, the same "
-                  "descriptor twice in one poll, the address-server pipe, LPC sockets, ed, snoop, exec(), get_char are not "
+                  "descriptor twice in one poll, the address-server pipe, LPC sockets, ed, exec(), get_char, the output side of "
+                  "snoop (the scripted receive_snoop() ignores ordinary output), validity of the snoop_by / snoop_on pointers are not "
                   "modelled (ASan/UBSan observe the real runs; address re-use is observed on a second build without "
                   "sanitizers)")
     rule = ("cases = corpus + known-finding inputs + boundary list + seeded random histories: per backend cycle one I/O "
             "event or a batch of 2-4 events delivered by ONE poll in scripted order (accept / 1-3 complete or partial "
             "lines, some very long / end-of-file / reset (hang-up) / console line, on distinct connections, shuffled; "
-            "directed template: a third party frees a record whose own event is still pending, accept in between) and an "
+            "directed templates: a third party frees a record whose own event is still pending with an accept in between; "
+            "a backlog of 6-12 failing commands on one connection while the others have commands pending; snoop links "
+            "set, replaced and torn down in random order; a heart_beat removing an object still to come in its round) and an "
             "optional timer tick (2 s ... 1000 s, so that reset and clean_up sweeps happen); "
             "scripts inject ok / uncaught error / caught error / destruct (self, other user, other object) / call_out / "
-            "heart-beat switch / master-handler switch / input_to into logon, process_input, command, input_to callback, "
-            "write_prompt, net_dead, heart_beat, call_out, reset, clean_up and connect; both modes; three master error_handler "
+            "heart-beat switch / master-handler switch / input_to / snoop into logon, process_input, command, input_to callback, "
+            "write_prompt, receive_snoop, net_dead, heart_beat, call_out, reset, clean_up and connect; both modes; three master error_handler "
             "behaviours; batch cases run on the sanitizer build AND on a plain build; a case is non-trivial when its "
             "trace has >= 2 task lines; distinct = distinct canonical implementation trace")
     not_covered = ["memory errors inside the failing task itself (C01) - only observed by ASan/UBSan on the generated runs",
                    "real signal delivery, the real 2 s timer thread (ticks are injected exactly as its callback does)",
                    "the same descriptor reported twice in one poll (data and end-of-file together), write-ready events",
-                   "address-server pipe, LPC sockets, ed, snoop, exec(), get_char, the `!` escape, "
+                   "address-server pipe, LPC sockets, ed, exec(), get_char, the `!` escape, snoop forwarding of ordinary output, "
                    "input_to armed from net_dead / call_out / heart_beat (inherited command_giver)",
                    "an object destructed by its own reset() when its clean_up is due (the C code applies clean_up to it)",
                    "console on a real tty (reconnect path); the harness console is a pipe, where removal means shutdown",
